@@ -27,47 +27,12 @@
 //   release builds: silently wrong sum / avg / min / max / stats (numbers below);
 //   debug builds:   the debug_assert in is_contiguous fires: panic "fetch_block requires docs sorted ascending without duplicates"
 //                   inside Searcher::search, for a valid request.
-// (The same unsorted / duplicated blocks also violate the precondition of find_missing_docs -- a doc listed twice is reported
-// missing the second time -- and [3, 1]-shaped blocks underflow `last - first`.)
+// (Out-of-order blocks also violate the precondition of find_missing_docs, a merge of two sorted lists: test (C); and before the
+// repair [3, 1]-shaped blocks underflowed `last - first`.)
 //
 // Ordinary integration test, public API only: copy into tests/ of a copy of the tree,
 //   cargo test --offline --test demo_block_accessor_unsorted_block -- --test-threads 1 --nocapture
 //   cargo test --release --offline --test demo_block_accessor_unsorted_block -- --test-threads 1 --nocapture
-// (C) RESIDUAL.  doc0 cat=1 opt=10 | doc1 cat=2 opt=1000 | doc2 (no cat) opt=20 | doc3 cat=1 (no opt) ; terms(cat, missing: 1) / sum(opt, missing: 5)
-// bucket 1 receives the block [0, 3, 2] (missing doc 2 appended after doc 3).  fetch_block_with_missing on the Optional column `opt`:
-// docid_cache = [0, 2]; find_missing_docs(docs = [0, 3, 2], hits = [0, 2]): 0 == 0; 3 > 2 -> hits exhausted; then 3 AND 2 are reported
-// missing: doc 2 contributes its value 20 and the missing value 5.
-#[test]
-fn residual_missing_scan_on_out_of_order_block() {
-    let mut schema_builder = Schema::builder();
-    let cat = schema_builder.add_u64_field("cat", FAST);
-    let opt = schema_builder.add_u64_field("opt", FAST);
-    let index = Index::create_in_ram(schema_builder.build());
-    let mut writer: IndexWriter = index.writer_with_num_threads(1, 20_000_000).unwrap();
-    for (c, o) in [(Some(1u64), Some(10u64)), (Some(2), Some(1000)), (None, Some(20)), (Some(1), None)] {
-        let mut doc = TantivyDocument::default();
-        if let Some(c) = c {
-            doc.add_u64(cat, c);
-        }
-        if let Some(o) = o {
-            doc.add_u64(opt, o);
-        }
-        writer.add_document(doc).unwrap();
-    }
-    writer.commit().unwrap();
-    let res = run(
-        &index,
-        r#"{ "by_cat": { "terms": { "field": "cat", "missing": 1 }, "aggs": { "s": { "sum": { "field": "opt", "missing": 5 } } } } }"#,
-    );
-    println!("(C) terms(cat, missing=1)/sum(opt, missing=5): {res:?}");
-    let res = res.expect("valid request must not fail");
-    let buckets = res["by_cat"]["buckets"].as_array().unwrap();
-    let b1 = buckets.iter().find(|b| b["key"].as_f64() == Some(1.0)).unwrap();
-    assert_eq!(b1["doc_count"].as_u64(), Some(3));
-    // bucket 1 = docs 0 (opt 10), 2 (opt 20), 3 (no opt -> 5)
-    assert_eq!(b1["s"]["value"].as_f64(), Some(35.0), "10 + 20 + 5");
-}
-
 // Recorded runs: see the end of this file.
 use serde_json::Value;
 use tantivy::aggregation::agg_req::Aggregations;
@@ -152,6 +117,41 @@ fn histogram_on_multivalued_column_with_sum_sub_agg() {
     assert!(s == 101.0 || s == 102.0, "sum of bucket [0,10) is {s}: includes val=10 of doc 1, which is in bucket 50");
 }
 
+// (C) RESIDUAL.  doc0 cat=1 opt=10 | doc1 cat=2 opt=1000 | doc2 (no cat) opt=20 | doc3 cat=1 (no opt) ; terms(cat, missing: 1) / sum(opt, missing: 5)
+// bucket 1 receives the block [0, 3, 2] (missing doc 2 appended after doc 3).  fetch_block_with_missing on the Optional column `opt`:
+// docid_cache = [0, 2]; find_missing_docs(docs = [0, 3, 2], hits = [0, 2]): 0 == 0; 3 > 2 -> hits exhausted; then 3 AND 2 are reported
+// missing: doc 2 contributes its value 20 and the missing value 5.
+#[test]
+fn residual_missing_scan_on_out_of_order_block() {
+    let mut schema_builder = Schema::builder();
+    let cat = schema_builder.add_u64_field("cat", FAST);
+    let opt = schema_builder.add_u64_field("opt", FAST);
+    let index = Index::create_in_ram(schema_builder.build());
+    let mut writer: IndexWriter = index.writer_with_num_threads(1, 20_000_000).unwrap();
+    for (c, o) in [(Some(1u64), Some(10u64)), (Some(2), Some(1000)), (None, Some(20)), (Some(1), None)] {
+        let mut doc = TantivyDocument::default();
+        if let Some(c) = c {
+            doc.add_u64(cat, c);
+        }
+        if let Some(o) = o {
+            doc.add_u64(opt, o);
+        }
+        writer.add_document(doc).unwrap();
+    }
+    writer.commit().unwrap();
+    let res = run(
+        &index,
+        r#"{ "by_cat": { "terms": { "field": "cat", "missing": 1 }, "aggs": { "s": { "sum": { "field": "opt", "missing": 5 } } } } }"#,
+    );
+    println!("(C) terms(cat, missing=1)/sum(opt, missing=5): {res:?}");
+    let res = res.expect("valid request must not fail");
+    let buckets = res["by_cat"]["buckets"].as_array().unwrap();
+    let b1 = buckets.iter().find(|b| b["key"].as_f64() == Some(1.0)).unwrap();
+    assert_eq!(b1["doc_count"].as_u64(), Some(3));
+    // bucket 1 = docs 0 (opt 10), 2 (opt 20), 3 (no opt -> 5)
+    assert_eq!(b1["s"]["value"].as_f64(), Some(35.0), "10 + 20 + 5");
+}
+
 // Recorded runs (2026-09-26, scratch copy of /repo at d32e9bf-era tree, this sandbox):
 //   debug   (cargo test --offline --test demo_block_accessor_unsorted_block): 0 passed; 2 failed
 //     (A) Err("PANIC: fetch_block requires docs sorted ascending without duplicates")
@@ -159,3 +159,7 @@ fn histogram_on_multivalued_column_with_sum_sub_agg() {
 //   release (cargo test --release ...): 0 passed; 2 failed
 //     (A) by_cat bucket key 1: doc_count 3, s.value 111.0   (expected 1101.0 = 1 + 1000 + 100; 111 = vals of docs 0,1,2)
 //     (B) h bucket key 0.0:   doc_count 3, s.value 111.0   (expected 101 or 102; 111 = vals of docs 0,1,2, doc 1 belongs to bucket 50)
+//
+// Recorded run on the REPAIRED tree (2026-09-26, scratch copy of /repo after the fix commit, debug build):
+//   (A) ok (bucket 1 sum 1101.0)   (B) ok (bucket 0 sum 102.0)
+//   (C) FAILED: by_cat bucket key 1: doc_count 3, s.value 40.0   (expected 35.0 = 10 + 20 + 5; doc 2 counted with its value 20 AND the missing value 5)
